@@ -8,7 +8,7 @@ use crate::util::*;
 use acpi_tables::Aml;
 use serde_json::{json, Value};
 
-fn mk(st: &str, e: &Value, hs: &Hs) -> Box<dyn Aml> {
+pub fn mk(st: &str, e: &Value, hs: &Hs) -> Box<dyn Aml> {
     match st {
         "lapic" => Box::new(mk_lapic(e)),
         "ioapic" => Box::new(mk_ioapic(e)),
